@@ -1,6 +1,6 @@
 from engine import Query
 
-ASSUMPTIONS = ["strings are built from arbitrary bytes 0..255 (chars are signed; tolower/toupper follow the C locale and are the identity outside A-Z/a-z, also for negative values) with symbolic lengths 0..L",
+ASSUMPTIONS = ["strings are built from arbitrary bytes 0..255 (chars are signed; tolower/toupper follow glibc's C locale: identity outside A-Z/a-z, a negative char other than -1 maps to its unsigned value) with symbolic lengths 0..L",
                "case mapping as modelled in engine/rt.c"]
 OUTSIDE = ["strings longer than L (3 quick, 4 thorough); std::sort itself",
            "ALL path laws of the property (PathsAreEqual equivalence, Append/GetFilename, GetDirectory+re-join, ChangeFileExtension/ExtensionMatches): std::filesystem::path is implemented inside libstdc++.so (no IR); "
